@@ -413,6 +413,9 @@ func c05tree(out *evid.Out, f *evid.Flags, ti int, concurrent bool) {
 			}
 		}
 		owner[p.id] = p.n.w // checked for every write of every writer at the end of the tree
+		if gl := p.n.l.GetLevel(); gl != p.n.level {
+			viol("getlevel", fmt.Sprintf("%s: node n%d (%s): GetLevel() = %d, the level of its derivation path is %d", when, p.n.id, p.n.desc(), gl, p.n.level))
+		}
 		if !enabled {
 			if len(mine) != 0 {
 				viol("level-leak", fmt.Sprintf("%s: node n%d (level %d) wrote a level-%d event", when, p.n.id, p.n.level, p.lvl))
